@@ -35,15 +35,17 @@ async def _settle(fb):
     await asyncio.sleep(0.004)
 
 
-def scenario(seed, scratch: Path, rep: Report, max_points):
+def scenario(seed, scratch: Path, rep: Report, max_points, force=None):
+    """force = (target command, concurrency): the kinds rotate with the scenario's position in the run, so that every run has a snapshot,
+    a delete and a clean target at concurrency >= 2 whose permanent-failure points are ALL enumerated"""
     rng = random.Random(seed)
     encrypted = rng.random() < 0.7
-    world = World(seed, encrypted, scratch, concurrent=rng.choice([1, 2, 3]), delay=0.0005, nusers=rng.choice([2, 3]),
+    world = World(seed, encrypted, scratch, concurrent=force[1] if force else rng.choice([1, 2, 3]), delay=0.0005, nusers=rng.choice([2, 3]),
                   chunking=rng.choice([(16, 64), (8, 32)]))
     model_cases, expectations = [], []
 
     def viol(kind, what, extra=None):
-        rep.violations.append({'what': what, 'signature': {'kind': kind}, 'replay': {'seed': seed, 'detail': extra}})
+        rep.violations.append({'what': what, 'signature': {'kind': kind}, 'replay': {'seed': seed, 'detail': extra, 'force': list(force) if force else None}})
 
     async def go():
         await world.setup()
@@ -60,6 +62,8 @@ def scenario(seed, scratch: Path, rep: Report, max_points):
         base_objects = dict(world.backend.objects)
         base_snaps = dict(world.snaps)
         target_kind = rng.choice(['snapshot', 'snapshot', 'delete', 'clean'])
+        if force:
+            target_kind = force[0]
         actor = rng.choice(world.users)
         own = [n for n, s in world.snaps.items() if s['owner'] == actor['name'] and s['location'] in base_objects]
         if target_kind == 'delete' and not own:
@@ -100,7 +104,10 @@ def scenario(seed, scratch: Path, rep: Report, max_points):
         rep.count('mutations', n)
         points = [(m, k) for m in ('crash', 'fail') for k in range(n)]
         rng.shuffle(points)
-        for mode, k in points[:max_points]:
+        if force:
+            # every permanent-failure point first, then kills up to the budget
+            points = [p_ for p_ in points if p_[0] == 'fail'] + [p_ for p_ in points if p_[0] == 'crash'][:max_points]
+        for mode, k in (points if force else points[:max_points]):
             world.backend.objects = dict(base_objects)
             world.snaps = dict(base_snaps)
             fb = FaultBackend(world.backend, mode, k)
@@ -676,12 +683,13 @@ def local_session_probe(ctx, rep: Report, n, only=None):
 
 def _run(ctx, nscen, max_points, nlocal, rep):
     cases, exps = [], []
-    for _ in range(nscen):
+    forced = [('snapshot', 2), ('delete', 2), ('clean', 2), ('snapshot', 3)]
+    for i_ in range(nscen):
         sd = ctx.rng.randint(0, 2 ** 31)
         wd = ctx.scratch / f's{sd}'
         wd.mkdir(parents=True, exist_ok=True)
         try:
-            mc, ex = scenario(sd, wd, rep, max_points)
+            mc, ex = scenario(sd, wd, rep, max_points, force=forced[i_] if i_ < len(forced) else None)
         finally:
             shutil.rmtree(wd, ignore_errors=True)
         cases += mc
@@ -747,7 +755,7 @@ def replay(ctx, obj):
     elif 'seed' in r:
         wd = ctx.scratch / 'replay'
         wd.mkdir()
-        scenario(r['seed'], wd, rep, 1000)
+        scenario(r['seed'], wd, rep, 1000, force=tuple(r['force']) if r.get('force') else None)
     else:
         local_stage_cases(ctx.rng, ctx.scratch, rep, 200)
     for v in rep.violations:
